@@ -26,6 +26,7 @@ func init() {
 			}
 			m.RunErrDrop(s, "R-ERRDROP", fns)
 			m.RunScope(s, "R-SCOPE")
+			m.RunAssignCases(s, "R-SCOPE") // an assignment binds what was evaluated; a variable keeps its type
 			s.RequireMin("R-SCOPE", 14, "8 block evaluations in fresh scopes, component binding, store writers, Set checks, Get fallback, loop object scope, data binding")
 		},
 	})
